@@ -196,5 +196,5 @@ def classify(f, ctx):
     cc["cond"] = cond
     exp = multi.expected(cc, world)
     r = KF.attribute(f, lambda caching: multi.evaluate(cc, world, caching=caching)[0], exp, mentioned_not_selected=False,
-                     compare=lambda got, e: H.diff_kind(got, e, ordered=False, multiset=True))
+                     compare=lambda got, e: H.diff_kind(got, e, ordered=False, multiset=True), nvars=len(case["kinds"]))
     return r if r == "K05" else None
